@@ -4,6 +4,7 @@ import GmqttVerif.Proofs.BrokerLimitsIn
 import GmqttVerif.Properties.C01
 import GmqttVerif.Properties.C10
 import GmqttVerif.Properties.C13
+import GmqttVerif.Model.BrokerCfg
 /-
   C13 at broker level — the limits negotiated at CONNECT hold in both directions, over the wire-level broker model
   (`Model/Broker.lean`; `runB`/`Step` are the wire steps of C05, `PumpRound`/`PumpTrace` the rounds of the poll loop):
@@ -444,6 +445,12 @@ theorem inbound_size (b : B) (r : PubReq) (c : Cli) (hc : b.cli? r.conn = some c
 /-- the configurations the validator of the server accepts (`config.Validate`, mirrored in `Driver/Broker.lean`) -/
 def validCfg (cfg : Cfg) : Prop :=
   cfg.maxQueued > 0 ∧ cfg.recvMax ≠ 0 ∧ cfg.maxPacket ≠ 0 ∧ cfg.maxInflight ≠ 0 ∧ cfg.maxQueued ≥ cfg.maxInflight
+
+/-- `validCfg` is what the executable validator `Cfg.validB` decides — the function the oracle runs on every `new` line and
+    that the stream `config-validate` compares with `config.MQTT.Validate` of the real code on boundary configurations. -/
+theorem validCfg_iff_validB (cfg : Cfg) : validCfg cfg ↔ cfg.validB = true := by
+  unfold validCfg Cfg.validB
+  simp [Bool.and_eq_true, decide_eq_true_eq, bne_iff_ne, and_assoc]
 
 /-- 6. `negotiate_ok`. For every configuration the validator accepts, every state and every CONNECT request,
     `connect` registers a connection record `c` with
